@@ -1364,6 +1364,9 @@ func (w *world) judgeStream(x *common.Exec, sr *subRec, pats [][]string, syncs [
 				}
 				if got, ok := rp[tg][k]; !ok || got != content {
 					x.Violate("C04/replay-missing-or-stale", "target %s leaf %s: the cache holds %s, replaying the subscriber's responses gives %q (present=%v)\n%s  writers:\n%s", tg, gen.Show(k), content, got, ok, describe(sr), w.history())
+					// the same event as the streaming filter sees it: a leaf a query for
+					// the subscription returns was not (or not up to date) streamed
+					x.Violate("C06/query-leaf-not-streamed-to-subscriber", "target %s leaf %s matches the subscription and the cache holds %s, but the subscriber's view is %q (present=%v)\n%s", tg, gen.Show(k), content, got, ok, describe(sr))
 					return
 				}
 			}
